@@ -21,7 +21,7 @@ LEVEL = "fault_enumeration"
 RULE = ("Tables (local and fake S3; 2-4 retained snapshots chosen by the seed) with a manifest rewritten by a partial delete, a live transaction whose data "
         "file is 2 h old, an in-flight manifest protected by a payload marker, a data file protected by a legacy empty-payload marker, an abandoned (25 h) "
         "marker, and deletable 2 h old orphans, all reachable files aged 2 h so that any wrong decision deletes something. (a) a fault at EVERY step of a "
-        "clean collection run (local: storage API calls and the os-level calls under them; S3: every request, failing persistently through all retries), "
+        "clean collection run (local: storage API calls and the os-level calls under them, once as a one-shot error and once persisting for that call on that file; S3: every request, failing persistently through all retries), "
         "(b) each of the three listings returning an escaping path, (c) every reachable metadata-plane file x {delete, truncations, random bytes} that an "
         "independent parser rejects. Oracle: a run that raised deleted nothing; a run that returned deleted no file that is reachable in the UNDAMAGED "
         "table or protected by a live marker. Non-trivial: the fault hit a call whose result feeds the reachable/protected sets (anything before the first "
@@ -188,33 +188,36 @@ def run_variant(task):
             for idx, (k, ph, label, target) in enumerate(events):
                 if idx % task["nshard"] != task["shard"]:
                     continue
-                wi = base.clone(f"{d}/f{k}") if wk == "local" else base.clone()
-                sti = Stepper()
-                fired = []
-                sig = (label, target)
+                # local: a one-shot error, and a PERSISTENT one (the same call on the same file keeps failing, other calls work)
+                for sticky in ((False, True) if wk == "local" else (True,)):
+                    wi = base.clone(f"{d}/f{k}") if wk == "local" else base.clone()
+                    sti = Stepper()
+                    fired = []
+                    sig = (label, target)
 
-                def h(n, phase, lab, tgt, info, k=k, sig=sig):
-                    if phase != "before":
-                        return
-                    if (n == k and not fired) or (fired and wk != "local" and (lab, tgt) == sig):
-                        fired.append(n)  # S3: fail persistently so the retry layer cannot mask it
-                        if wk == "local":
-                            raise OSError(5, "injected")
-                        raise client_error("InternalError", "Op", 500)
+                    def h(n, phase, lab, tgt, info, k=k, sig=sig, sticky=sticky):
+                        if phase != "before":
+                            return
+                        if (n == k and not fired) or (fired and sticky and (lab, tgt) == sig):
+                            fired.append(n)  # S3: always persistent, so that the retry layer cannot mask it
+                            if wk == "local":
+                                raise OSError(5, "injected")
+                            raise client_error("InternalError", "Op", 500)
 
-                sti.handler = h
-                r = run_gc(wi, sti)
-                nl = c04.norm_label(label, target)
-                cls = _fault_class(label, target)
-                case = {"kind": "gc", "world": wk, "variant": variant, "class": cls, "k": k, "step": nl}
-                res.case(key=f"{wk}|{variant}|a|{nl}", nontrivial=k < first_delete, labels=["a:fault", f"world:{wk}", f"a:{cls}", "raised" if r else "returned"],
-                         sample=case if k % 29 == 0 else None)
-                if fired:
-                    judge(res, wi, before, R, P, r, case, f"fault at step {k} [{nl}]")
-                if wk == "local":
-                    import shutil
+                    sti.handler = h
+                    r = run_gc(wi, sti)
+                    nl = c04.norm_label(label, target)
+                    cls = _fault_class(label, target)
+                    case = {"kind": "gc", "world": wk, "variant": variant, "class": cls, "k": k, "step": nl, "sticky": sticky}
+                    res.case(key=f"{wk}|{variant}|a|{nl}|{sticky}", nontrivial=k < first_delete,
+                             labels=["a:fault", f"world:{wk}", f"a:{cls}", "raised" if r else "returned"] + (["a:persistent"] if sticky else ["a:one-shot"]),
+                             sample=case if k % 29 == 0 else None)
+                    if fired:
+                        judge(res, wi, before, R, P, r, case, f"{'persistent ' if sticky else ''}fault at step {k} [{nl}]")
+                    if wk == "local":
+                        import shutil
 
-                    shutil.rmtree(wi.root, ignore_errors=True)
+                        shutil.rmtree(wi.root, ignore_errors=True)
         # ---- (b) listings returning an escaping path
         if task["part"] in ("b", "all") and task["shard"] == 0:
             for pfx in ("metadata/inflight", "data", "metadata/manifests"):
